@@ -470,7 +470,9 @@ def check_property(prop, tier, seed):
                     if line.startswith("PLAN "):
                         plan = line[5:700]
                     elif line.startswith("RUN ") and plan:
-                        samples.append({"plan": plan, "execution": line[4:]})
+                        smp = {"plan": plan, "execution": line[4:], "flavour": j.flavour}
+                        if not any(x.get("plan") == smp["plan"] and x.get("execution") == smp["execution"] for x in samples):
+                            samples.append(smp)
                         plan = None
             except Exception:
                 pass
